@@ -141,8 +141,10 @@ f23_S: {#Base23_S, id_S: "i", labels_S: app_S: "x", extra_S: len(labels_S)}`,
 	/*29*/ `f29_S: {d_S: e_S - 1, e_S: 1 + d_S, e_S: *2 | 0}`,
 	/*30*/ `f30_S: {x_S: {if y_S.v_S > 1 {w_S: 1}}, y_S: {v_S: 2, if x_S.w_S != _|_ {u_S: 3}}, z_S: {for k, v in y_S {"\(k)": v}}}`,
 	// conjunctions of bounds and validators in unsorted order, erroneous fields next to good ones
-	/*31*/ `f31_S: {a_S: <10 & >=0 & int, b_S: !="x" & =~"^a" & string, c_S: <=5 & >2 & !=3, d_S: a_S & c_S}`,
-	/*32*/ `f32_S: {bad_S: 1 & 2, s_S: "x" & int, l_S: [1, 2] & [1, 3], ok_S: bad_S | 7, n_S: {m_S: bad_S}}`,
+	/*31*/ `f31_S: {a_S: <10 & >=0 & int, b_S: !="x" & =~"^a" & string, c_S: <=5 & >2 & !=3, d_S: a_S & c_S,
+	e_S: g_S & h_S & int, g_S: !=5, h_S: >1, v_S: strings.MinRunes(1) & =~"^a", w_S: {x_S: y_S & number, y_S: <100}}`,
+	/*32*/ `f32_S: {bad_S: 1 & 2, s_S: "x" & int, l_S: [1, 2] & [1, 3], ok_S: bad_S | 7, n_S: {m_S: bad_S},
+	o_S: 5 & <3, r_S: "foo" & =~"^b", i_S: len(5)}`,
 	// closed structs with pattern constraints: whether a label is allowed is decided by the patterns
 	/*33*/ `#C33_S: {[=~"^x"]: int, [=~"^s"]: string, a_S: 1}
 f33_S: {v_S: #C33_S & {x1_S: 2, s1_S: "q"}, w_S: close({[=~"^k"]: bool, k1_S: true})}`,
@@ -171,13 +173,29 @@ var snippetPaths = [][]string{
 	{"", "spec_S", "spec_S.replicas_S"}, {"", "s_S"}, {""}, {"", "have_S"}, {"", "b_S"}, {""}, {"", "list_S", "sum_S"}, {"", "b_S"}, {"", "ok_S"}, {"", "u_S"},
 	{"", "u_S", "w_S", "u_S.va_S"}, {"", "sw_S", "e_S", "e_S.p_S"}, {"", "l_S"}, {"", "labels_S", "extra_S"}, {"", "out_S"}, {"", "addr_S", "tags_S", "port_S"}, {"", "b_S", "f_S"}, {"", "l_S", "m_S", "j_S"},
 	{"", "lo_S"}, {"", "d_S"}, {"", "y_S", "z_S"},
-	{"", "a_S", "c_S", "d_S"}, {"", "bad_S", "l_S", "n_S"},
+	{"", "a_S", "c_S", "d_S", "e_S", "v_S", "w_S.x_S"}, {"", "bad_S", "l_S", "n_S", "o_S", "r_S", "i_S"},
 	{"v_S", "w_S", "v_S", ""},
 }
 
 var opKinds = []string{"lookup", "fields", "fields-all", "walk", "unify", "unify-accept", "fill", "fill-value", "validate", "validate-concrete", "default", "eval",
 	"syntax", "syntax-final", "syntax-all", "decode", "json", "yaml", "equals", "subsume", "expr", "refpath", "allows", "kind", "len", "attrs", "compile", "encode", "encode-type",
 	"list", "exists-concrete", "string-int", "buildexpr", "validator-eq", "validator-eq", "decode-ci", "decode-ci", "fresh-eval", "fresh-eval", "build-file", "build-instance", "expr-syntax", "err-format", "let-merge", "let-merge", "allows-many"}
+
+var affinity = map[string]struct {
+	p     float64
+	frags []int
+}{
+	"err-format":  {0.8, []int{32}},
+	"expr-syntax": {0.7, []int{31}},
+	"syntax":      {0.3, []int{31, 32}},
+	"syntax-all":  {0.3, []int{31, 32}},
+	"kind":        {0.3, []int{31}},
+	"equals":      {0.3, []int{31}},
+	"validate":    {0.2, []int{32}},
+	"allows":      {0.5, []int{33}},
+	"allows-many": {0.7, []int{33}},
+	"default":     {0.4, []int{25, 26, 29}},
+}
 
 // rare branches where a badly placed preemption matters most
 var hotSites = []string{"runtime.getKey:upgrade", "runtime.LoadBuiltin:before-lock", "cue.cachedTypeFields:miss", "convert.astFromGoType:miss",
@@ -212,6 +230,23 @@ func gen(seed uint64, tier string, idx int) sim.CaseI {
 	}
 	randOp := func() Op {
 		op := Op{Kind: opKinds[wr.Intn(len(opKinds))], Val: hot, Path: pathOf(wr.Intn(len(c.Snippets))), Arg: hotArg}
+		// Some calls only do something interesting on some shapes (formatting an error needs an
+		// erroneous value, exporting a conjunction needs one): such a call mostly goes to a
+		// fragment of that shape, which joins the program if it is not part of it yet.
+		if aff, ok := affinity[op.Kind]; ok && wr.Bool(aff.p) {
+			f := aff.frags[wr.Intn(len(aff.frags))]
+			sn := -1
+			for i, k := range c.Snippets {
+				if k == f {
+					sn = i
+				}
+			}
+			if sn < 0 {
+				c.Snippets = append(c.Snippets, f)
+				sn = len(c.Snippets) - 1
+			}
+			op.Path = pathOf(sn)
+		}
 		if wr.Bool(0.1) {
 			op.Path = "" // the root
 		}
